@@ -194,4 +194,4 @@ Proof.
     assert (Hhmo : holders mo = holders m) by (destruct m; reflexivity).
     split.
     + eapply ginv_geq; [apply (install_h s' _ k mo m' P1 Hm'); gs; auto|].
- Show. 
+* intros r0. rewrite Hhm', Hhmo, Hhol, !occ_app. specialize (P3 r0). rewrite <- !Nat.add_assoc. rewrite P3.  Show. 
